@@ -387,13 +387,26 @@ def check_small_tools(ctx):
         bad = cmp_lines(impl[1], sizes, m) if m is not NoModel else None
         if bad:
             ctx.tie_fail("propagate_nan differs from the model", {**desc, "case": bad[0]}, bad[1], bad[2])
-    # ---- observed_cdf
-    n = rng.randint(1, 4)
+    check_observed(ctx)
+    check_round(ctx)
+
+
+EPS = [4e-8, -4e-8, 1 / 3 * 1e-6, 0.123456789e-2]     # more than 7 decimals
+
+
+def check_observed(ctx, obs_vals=None, tv=None, inc=None, prec=None):
+    rng = ctx.rng
+    c = C()
+    if obs_vals is None:
+        n = rng.randint(1, 4)
+        prec = rng.choice([0, 0, 0.5, 1, 0.25])
+        fine = prec == 0 and rng.random() < 0.5      # without rounding the observations may be any float
+        obs_vals = [NAN if rng.random() < 0.15 else rng.randint(0, 16) / 4.0 + (rng.choice(EPS) if fine else 0.0) for _ in range(n)]
+        tv = None if rng.random() < 0.3 else [rng.randint(0, 8) / 2.0 + (rng.choice(EPS + [0.0]) if fine else 0.0) for _ in range(rng.randint(1, 4))]
+        inc = True if tv is None else rng.random() < 0.5
+    n = len(obs_vals)
     sizes = {"a": n}
-    obs = xr.DataArray([NAN if rng.random() < 0.15 else rng.randint(0, 16) / 4.0 for _ in range(n)], dims=["a"], coords={"a": list(range(n))})
-    tv = None if rng.random() < 0.3 else [rng.randint(0, 8) / 2.0 for _ in range(rng.randint(1, 4))]
-    inc = True if tv is None else rng.random() < 0.5
-    prec = rng.choice([0, 0, 0.5, 1, 0.25])
+    obs = xr.DataArray(obs_vals, dims=["a"], coords={"a": list(range(n))})
     desc = {"fn": "observed_cdf", "obs": gens.da_repr(obs), "threshold_values": tv, "include_obs_in_thresholds": inc, "precision": prec}
     impl = core.call_impl(c.observed_cdf, obs, TD, threshold_values=tv, include_obs_in_thresholds=inc, precision=prec)
     ctx.case(desc, nontrivial=impl[0] == "ok")
@@ -430,9 +443,15 @@ def check_small_tools(ctx):
             bad = cmp_lines(impl[1], sizes, m) if m is not NoModel else None
             if bad:
                 ctx.tie_fail("observed_cdf differs from the model", {**desc, "case": bad[0]}, bad[1], bad[2])
-    # ---- round_values
-    p = rng.choice([0, 0.5, 0.25, 2, 1, 0.125, -1])
-    vals = [NAN if rng.random() < 0.1 else rng.randint(-64, 64) / 16.0 for _ in range(rng.randint(1, 6))]
+
+
+def check_round(ctx, vals=None, p=None):
+    rng = ctx.rng
+    c = C()
+    if vals is None:
+        p = rng.choice([0, 0, 0.5, 0.25, 2, 1, 0.125, -1])
+        fine = p == 0 and rng.random() < 0.7
+        vals = [NAN if rng.random() < 0.1 else rng.randint(-64, 64) / 16.0 + (rng.choice(EPS) if fine else 0.0) for _ in range(rng.randint(1, 6))]
     impl = core.call_impl(c.round_values, xr.DataArray(vals, dims=["x"]), p)
     m = mcall(ctx, "c17_round", enc_list([enc_nums(vals), enc_num(p), enc_bool(True)]))
     desc = {"fn": "round_values", "values": vals, "rounding_precision": p}
@@ -470,9 +489,11 @@ def crps_of(fc, obs, sizes, add, ffm, im, extra=()):
     return core.call_impl(P.crps_cdf, fc, obs, **kw)
 
 
-def check_adjust(ctx):
+def check_adjust(ctx, given=None):
     import scores.probability as P
     rng = ctx.rng
+    if given is not None:
+        return _check_adjust(ctx, *given)
     da, sizes, ths = gen_array(rng, nan_mode=rng.choice(["none", "none", "scatter", "line"]), nmin=2, nmax=6)
     odims = {d: sizes[d] for d in sizes if rng.random() < 0.7}
     on = int(np.prod([odims[d] for d in odims])) if odims else 1
@@ -496,6 +517,14 @@ def check_adjust(ctx):
     add = None if rng.random() < 0.6 else [rng.randint(2 * ths[0] - 4, 2 * ths[-1] + 4) / 4.0 for _ in range(rng.randint(1, 3))]
     ffm = rng.choice(FILLS)
     im = rng.choice(["exact", "trapz"])
+    return _check_adjust(ctx, da, sizes, ths, obs, tol, add, ffm, im)
+
+
+def _check_adjust(ctx, da, sizes, ths, obs, tol, add, ffm, im):
+    import scores.probability as P
+    dims, labs, lines = lines_of(da, sizes)
+    plines = [[NAN] * len(l) if any(np.isnan(v) for v in l) else l for l in lines]
+    decs = [sum((Fraction(a) - Fraction(b) for a, b in zip(l, l[1:]) if not (np.isnan(a) or np.isnan(b)) and a > b), Fraction(0)) for l in plines]
     desc = {"fn": "adjust_fcst_for_crps", "fcst": gens.da_repr(da), "obs": gens.da_repr(obs), "decreasing_tolerance": tol, "additional_thresholds": add,
             "fcst_fill_method": ffm, "integration_method": im}
     impl = core.call_impl(P.adjust_fcst_for_crps, da, TD, obs, decreasing_tolerance=tol, additional_thresholds=add, fcst_fill_method=ffm, integration_method=im)
@@ -622,6 +651,47 @@ def run_without_model(ctx):
     run(ctx)
 
 
+def probes(ctx):
+    """boundaries no random dyadic case reaches: total decrease exactly at / just above the tolerance; precision 0 with more than 7 decimals"""
+    def arr(lines, ths):
+        return xr.DataArray(np.array(lines, dtype=float), dims=["a", TD], coords={"a": list(range(len(lines))), TD: [t / 2.0 for t in ths]})
+    ths = [0, 2, 4, 6]
+    # (line, tolerance): just above (must be flagged), exactly at (must not), just below (must not)
+    for lines, tol in [([[0, .5, .3999995, 1], [0, .5, .4000005, 1], [0, .5, .39, 1]], 0.1),
+                       ([[0, .5, .375, 1], [0, .5, .374999995, 1], [0, .5, .375000005, 1]], 0.125),
+                       ([[0, .5, .499999995, 1], [0, .5, .5, 1], [0, .5, .5 - 1e-12, 1]], 0.0),
+                       ([[.25, .125, .75, .625], [.25, .125, .75, .62499999], [.25, .125, .75, .62500001]], 0.25),
+                       ([[0, 1, 1 - 2e-5, 1], [0, 1, 1 - 5e-6, 1]], 1e-5)]:
+        check_decreasing(ctx, arr(lines, ths), {"a": len(lines)}, ths, tol)
+        ctx.count("probe:decreasing_boundary")
+    # adjust on a line whose decrease is just above the tolerance: it must be treated as flagged (argmax of the three candidates)
+    obs_vals = [-1.0, 0.25, 0.75, 1.25, 1.75, 2.25, 2.75, 4.0]
+    for line, tol in [([0, .5, .3999995, 1], 0.1), ([.25, .125, .75, .62499999], 0.25), ([.75, .25, .5, .125], 0.875 - 1e-6)]:
+        da = arr([line] * len(obs_vals), ths)
+        ob = xr.DataArray(obs_vals, dims=["a"], coords={"a": list(range(len(obs_vals)))})
+        for im in ("exact", "trapz"):
+            check_adjust(ctx, given=(da, {"a": len(obs_vals)}, ths, ob, tol, None, "linear", im))
+            ctx.count("probe:adjust_boundary")
+    # the candidates must be ranked with the caller's options: a dense set of additional thresholds changes the trapezoidal (and the
+    # step / forward / backward filled) CRPS, hence possibly the winner
+    dense = [k / 4.0 for k in range(0, 13)]
+    dips = [[0, 1, .75, 1], [0, .5, 1, .75], [.5, .25, 1, .5], [.25, 0, .25, 1], [1, .5, .75, .25]]
+    obs_d = [0.5, 1.0, 1.5, 2.0, 2.5]
+    lines = [l for l in dips for _ in obs_d]
+    da = arr(lines, ths)
+    ob = xr.DataArray(obs_d * len(dips), dims=["a"], coords={"a": list(range(len(lines)))})
+    for ffm, im in [("linear", "trapz"), ("step", "exact"), ("forward", "trapz"), ("backward", "exact")]:
+        check_adjust(ctx, given=(da, {"a": len(lines)}, ths, ob, 0.0, dense, ffm, im))
+        ctx.count("probe:adjust_dense_additional_thresholds")
+    # precision 0 = no rounding at all, however many decimals
+    check_round(ctx, [1 / 3, 0.123456789, 2.00000004, -1.999999996, 5e-9], 0)
+    check_round(ctx, [1 / 3, 0.123456789], 0.0)
+    for inc in (True, False):
+        check_observed(ctx, [1.00000004, 2.49999997, 1 / 3], [1.0, 1.00000002, 1.0000001, 2.5, 0.3333333], inc, 0)
+    check_observed(ctx, [1.00000004, 0.99999996], None, True, 0)
+    ctx.count("probe:precision_zero", 5)
+
+
 def replay(ctx, obj):
     """re-run the generation that produced the replay file: every case derives from the recorded seed and tier"""
     ctx.rng.seed(obj.get("seed", ctx.seed))
@@ -652,6 +722,7 @@ def sweep(ctx):
 
 def run(ctx):
     corpus(ctx)
+    probes(ctx)
     sweep(ctx)
     n = ctx.n(70, 1500)
     for i in range(n):
